@@ -222,11 +222,14 @@ func wsUpgrade(addr, method string, header http.Header, query url.Values, cookie
 	return authResult{Admitted: strings.Contains(line, " 101 "), Status: strings.TrimSpace(line)}, nil
 }
 
-func smokeTest(addr, method string, header http.Header, query url.Values, cookie, body string) (authResult, error) {
+func smokeTest(addr, method, path string, header http.Header, query url.Values, cookie, body string) (authResult, error) {
+	if path == "" {
+		path = "/smoke-test"
+	}
 	if method == "" {
 		method = http.MethodPost
 	}
-	u := "http://" + addr + "/smoke-test"
+	u := "http://" + addr + path
 	if len(query) > 0 {
 		u += "?" + query.Encode()
 	}
@@ -253,6 +256,7 @@ type carrierCase struct {
 	Header, Query, Cookie string      // token per carrier ("" = carrier not used)
 	Method                string      // "" = the usual one (GET for the upgrade, POST for /smoke-test)
 	Extra                 [][2]string // further request headers (the token gate must not depend on them)
+	Path                  string      // smoke test only: a path other than /smoke-test that may reach the same handler
 }
 
 func c15f(clause, trigger, format string, a ...any) *check.Finding {
@@ -295,7 +299,7 @@ func probeAuth(c *check.Ctx, t authTarget, endpoint string, cc carrierCase, st *
 	if endpoint == "ws" {
 		res, err = wsUpgrade(t.Addr, cc.Method, hdr, q, cc.Cookie)
 	} else {
-		res, err = smokeTest(t.Addr, cc.Method, hdr, q, cc.Cookie, `{"endpoint":"http://127.0.0.1:9","token":"t","timeout":1000000}`)
+		res, err = smokeTest(t.Addr, cc.Method, cc.Path, hdr, q, cc.Cookie, `{"endpoint":"http://127.0.0.1:9","token":"t","timeout":1000000}`)
 	}
 	if err != nil {
 		// an oversized request may be cut by the server: that is a rejection
@@ -410,6 +414,15 @@ func carrierCases(tokens []tokenCase) []carrierCase {
 			carrierCase{Name: name + "/bad-header", Header: bad, Extra: [][2]string{kv}},
 			carrierCase{Name: name + "/bad-query", Query: bad, Extra: [][2]string{kv}},
 			carrierCase{Name: name + "/bad-cookie", Cookie: bad, Extra: [][2]string{kv}},
+		)
+	}
+	// neighbours of the protected path: whatever route they take, none of them
+	// starts a smoke test without a valid token
+	for _, pth := range []string{"/smoke-test/", "/smoke-test/x", "/smoke-test//", "/smoke-test/..", "/Smoke-Test", "/smoke-test%2f", "/smoke-test;x", "/./smoke-test", "/x/../smoke-test", "/smoke-test.json", "/smoketest"} {
+		out = append(out,
+			carrierCase{Name: "path-" + pth + "/none", Path: pth},
+			carrierCase{Name: "path-" + pth + "/bad-header", Path: pth, Header: bad},
+			carrierCase{Name: "path-" + pth + "/bad-query", Path: pth, Query: bad},
 		)
 	}
 	var once [][2]string
@@ -562,7 +575,7 @@ func partAuth(c *check.Ctx, a *acc) {
 						if (w+i/2)%4 == 0 {
 							res, err = wsUpgrade(t.Addr, "", hdr, nil, "")
 						} else {
-							res, err = smokeTest(t.Addr, "", hdr, nil, "", `{"endpoint":"http://127.0.0.1:9","token":"t","timeout":1000000}`)
+							res, err = smokeTest(t.Addr, "", "", hdr, nil, "", `{"endpoint":"http://127.0.0.1:9","token":"t","timeout":1000000}`)
 						}
 						if err != nil {
 							continue
@@ -674,7 +687,7 @@ func partAuth(c *check.Ctx, a *acc) {
 			samples = append(samples, map[string]any{"engine": "C15 auth", "token_case": cat[i].Name, "token": short(cat[i].Token)})
 		}
 	}
-	a.add(st.requests, st.carriers, "C15: a valid token and each single mutation of it (signature, header incl. alg none / RS256 / unknown, payload, times an hour off, structure) x three carriers and their combinations, against (a) the real middleware with a harness-owned inner handler and (b) the real binary behind a fake discovery service (unregistered window, registered, after secret rotation), on the relay upgrade and on /smoke-test; the invalid-token cases again with nine request methods and with twenty ambient request headers (proxy / CDN / deployment header names), one at a time and together; oracle: admitted only if a carried token verifies under the harness's own HMAC/claims verifier against the secret currently issued, a single valid token is admitted, and the protected handler is entered iff admitted; a case is distinct by token variant and carrier set", samples...)
+	a.add(st.requests, st.carriers, "C15: a valid token and each single mutation of it (signature, header incl. alg none / RS256 / unknown, payload, times an hour off, structure) x three carriers and their combinations, against (a) the real middleware with a harness-owned inner handler and (b) the real binary behind a fake discovery service (unregistered window, registered, after secret rotation), on the relay upgrade and on /smoke-test; the invalid-token cases again with nine request methods and with twenty ambient request headers (proxy / CDN / deployment header names), one at a time and together, and with eleven neighbours of the smoke-test path; oracle: admitted only if a carried token verifies under the harness's own HMAC/claims verifier against the secret currently issued, a single valid token is admitted, and the protected handler is entered iff admitted; a case is distinct by token variant and carrier set", samples...)
 }
 
 func init() {
